@@ -10,6 +10,7 @@ K3 grammar-bounded enumeration of texts:
   fll         valid FLL documents with every line deleted / duplicated / moved, truncation at every token boundary,
               every value token substituted, every key misspelt
   depth       parenthesis nesting and operand chains of 8, 64, 256
+  termless    all token strings of length <= L over 8 tokens that mention an input variable WITHOUT terms
 Oracle: vmc.ref.rulegrammar classifies each rule text; a failure must be a syntax/value/lookup error (never an
 internal error) and must leave the rule unloaded; VALID must be accepted; a listed-class single edit that makes the
 text invalid must be rejected; anything accepted must be exportable, re-creatable from its text and evaluable.
@@ -32,6 +33,7 @@ LEVEL = "model_checking"
 ANTE_TOKENS = ["a", "o", "is", "t", "very", "not", "any", "and", "or", "(", ")", "zz"]
 CONS_TOKENS = ["o", "p", "a", "is", "t", "w", "very", "any", "and", "zz"]
 FRAME_SYMBOLS = ["if", "then", "with", "a is t", "o is t", "0.5", "zz"]
+TERMLESS_TOKENS = ["e", "a", "is", "any", "not", "t", "and", "or"]
 
 # single-edit classes that the statement lists ("never accepted")
 LISTED = {"delete-keyword", "delete-variable", "delete-term", "delete-operand", "delete-operator", "unknown-name",
@@ -45,13 +47,16 @@ def small_engine():
     return fl.Engine(
         "e",
         input_variables=[fl.InputVariable("a", minimum=0.0, maximum=1.0, terms=terms()),
-                         fl.InputVariable("b", minimum=0.0, maximum=1.0, terms=terms())],
+                         fl.InputVariable("b", minimum=0.0, maximum=1.0, terms=terms()),
+                         fl.InputVariable("e", minimum=0.0, maximum=1.0, terms=[])],  # a variable without terms
         output_variables=[fl.OutputVariable("o", minimum=0.0, maximum=1.0, terms=terms()),
                           fl.OutputVariable("p", minimum=0.0, maximum=1.0, terms=[fl.Ramp("w", 0.0, 1.0)])],
         rule_blocks=[fl.RuleBlock("rb")],
     )
 
 
+# (the term-less variable `e` is not in the reference vocabulary: whether `e is any` is a sentence is left open, so only
+# "accepted => usable" and "rejected => cleanly and unloaded" are demanded of texts that mention it)
 SMALL_VOCAB = {"a": {"t", "u"}, "b": {"t", "u"}, "o": {"t", "u"}, "p": {"w"}}   # `t` is NOT a term of the output p
 SMALL_OUT = {"o": {"t", "u"}, "p": {"w"}}
 C06_OUT = {"o": {"p", "q"}}
@@ -91,7 +96,7 @@ def check_text(acc: Acc, ctx: Ctx, engine, vocab, out_vocab, text: str, family: 
         acc.violate("internal-error", {"type": type(ex).__name__, "where": where}, case, "clean rejection or acceptance",
                     f"{type(ex).__name__}: {ex}", f"{text!r}: internal {type(ex).__name__} in {where}: {str(ex)[:120]}")
     # the same text loaded into a rule object that is ALREADY loaded: a failed load must not leave the old expression
-    if outcome != "internal" and family in ("edits", "antecedent", "consequent", "depth"):
+    if outcome != "internal" and family in ("edits", "antecedent", "consequent", "depth", "termless"):
         valid = "if a is t then o is p" if engine is ctx.big else "if a is t then o is t"
         again = fl.Rule.create(valid, engine)
         parsed = False
@@ -117,7 +122,7 @@ def check_text(acc: Acc, ctx: Ctx, engine, vocab, out_vocab, text: str, family: 
         acc.violate("invalid-accepted", {"edit": edit, "class": ref}, case, f"rejected ({ref})", "accepted",
                     f"{text!r} ({edit}; {ref}) was accepted")
         return
-    if ref != "VALID":
+    if ref != "VALID" and family != "termless":
         acc.cls("lenient_accepts")
         if acc.extra["lenient_samples"] < 3:
             acc.extra["lenient_samples"] += 1
@@ -257,33 +262,61 @@ def fll_mutants(doc: str):
             yield "no-colon", lines[:i] + [key + rest] + lines[i + 1:]
 
 
+def import_outcome(text: str, separator: str):
+    """('accepted', exported text) | ('rejected', exception class) | ('internal', exception) of one import."""
+    try:
+        importer = fl.FllImporter() if separator == "\n" else fl.FllImporter(separator=separator)
+        engine = importer.from_string(text if separator == "\n" else text.replace("\n", separator))
+    except ALLOWED_REJECTIONS as ex:
+        return "rejected", type(ex).__name__, None
+    except RuntimeError:
+        return "rejected", "RuntimeError", None
+    except Exception as ex:  # noqa: BLE001
+        return "internal", type(ex).__name__, ex
+    return "accepted", None, engine
+
+
 def check_fll(acc: Acc, text: str, edit: str) -> None:
     case = {"fll": text, "edit": edit, "family": "fll"}
     acc.transitions += 1
     acc.case(text, nontrivial=True)
-    try:
-        engine = fl.FllImporter().from_string(text)
-    except ALLOWED_REJECTIONS:
-        acc.cls("fll_rejected")
-        return
-    except RuntimeError:
-        acc.cls("fll_rejected_runtime")
-        return
-    except Exception as ex:  # noqa: BLE001
+    outcome, cls, obj = import_outcome(text, "\n")
+    exported = None
+    if outcome == "internal":
         import traceback
-        tb = traceback.extract_tb(ex.__traceback__)
+        tb = traceback.extract_tb(obj.__traceback__)
         where = f"{tb[-1].filename.split('/')[-1]}:{tb[-1].name}"
-        acc.violate("internal-error", {"type": type(ex).__name__, "where": where, "family": "fll"}, case, "clean outcome",
-                    f"{type(ex).__name__}: {ex}", f"FLL import ({edit}): internal {type(ex).__name__} in {where}: {str(ex)[:100]}")
+        acc.violate("internal-error", {"type": cls, "where": where, "family": "fll"}, case, "clean outcome",
+                    f"{cls}: {obj}", f"FLL import ({edit}): internal {cls} in {where}: {str(obj)[:100]}")
         return
-    acc.cls("fll_accepted")
-    try:
-        out = fl.FllExporter().to_string(engine)
-        fl.FllImporter().from_string(out)
-        acc.traces += 1
-    except Exception as ex:  # noqa: BLE001
-        acc.violate("accepted-but-unusable", {"type": type(ex).__name__, "family": "fll"}, case, "exportable",
-                    f"{type(ex).__name__}: {ex}", f"imported FLL ({edit}) cannot be exported and re-imported: {type(ex).__name__}: {str(ex)[:100]}")
+    if outcome == "rejected":
+        acc.cls("fll_rejected" if cls != "RuntimeError" else "fll_rejected_runtime")
+    else:
+        acc.cls("fll_accepted")
+        try:
+            exported = fl.FllExporter().to_string(obj)
+            fl.FllImporter().from_string(exported)
+            acc.traces += 1
+        except Exception as ex:  # noqa: BLE001
+            acc.violate("accepted-but-unusable", {"type": type(ex).__name__, "family": "fll"}, case, "exportable",
+                        f"{type(ex).__name__}: {ex}", f"imported FLL ({edit}) cannot be exported and re-imported: {type(ex).__name__}: {str(ex)[:100]}")
+            return
+    # the statement separator is a configuration of the importer, not part of the language: the same document written
+    # with ';' between statements has the same fate (accepted with the same content / rejected with the same class)
+    if ";" not in text:
+        o2, c2, obj2 = import_outcome(text, ";")
+        acc.transitions += 1
+        exported2 = None
+        if o2 == "accepted":
+            try:
+                exported2 = fl.FllExporter().to_string(obj2)
+            except Exception as ex:  # noqa: BLE001
+                exported2 = f"{type(ex).__name__}"
+        if (o2, c2) != (outcome, cls) or exported2 != exported:
+            acc.violate("separator-dependent", {"newline": outcome, "semicolon": o2}, {**case, "separator": ";"}, [outcome, cls, exported],
+                        [o2, c2, exported2], f"FLL ({edit}) is {outcome} ({cls}) with newline separators but {o2} ({c2}) with ';' separators"
+                        + ("" if exported2 == exported else " / imported content differs"))
+        acc.cls("separator_variants")
 
 
 # ---------------------------------------------------------------------------------------------------------------------
@@ -293,6 +326,7 @@ def plan(tier: str, seed: int):
     shards += [("consequent", p, 12) for p in range(12)]
     shards += [("edits", p, 32) for p in range(32)]
     shards += [("fll", p, 8) for p in range(8)]
+    shards += [("termless", p, 4) for p in range(4)]
     shards += [("depth", 0, 1), ("block", 0, 1)]
     return shards
 
@@ -316,6 +350,14 @@ def run_shard(tier: str, seed: int, shard):
     elif family == "antecedent":
         for n in range(0, L + 1):
             for toks in itertools.product(ANTE_TOKENS, repeat=n):
+                idx += 1
+                if idx % parts == part:
+                    guarded(ctx.small, SMALL_VOCAB, SMALL_OUT, "if " + " ".join(toks) + " then o is t")
+    elif family == "termless":
+        for n in range(1, L + 1):
+            for toks in itertools.product(TERMLESS_TOKENS, repeat=n):
+                if "e" not in toks:
+                    continue
                 idx += 1
                 if idx % parts == part:
                     guarded(ctx.small, SMALL_VOCAB, SMALL_OUT, "if " + " ".join(toks) + " then o is t")
@@ -413,7 +455,8 @@ def summarize(tier: str, seed: int, merged: dict) -> dict:
             f"{ANTE_TOKENS}; consequent: length <= {L} over {CONS_TOKENS} (x 5 weight tails up to length 4); edits: every "
             "single edit at every position of the valid rules printed from all trees with <= 3 leaves (2 renderings x 2 "
             "consequents; quick keeps every 4th of the long ones); fll: 2 documents x every line deletion/duplication/move, "
-            "truncation at every token, 7 substitutions per token, misspelt keys; depth 8/64/256. states = texts, "
+            "truncation at every token, 7 substitutions per token, misspelt keys, each imported with newline and with ';' statement separators; depth 8/64/256; "
+            f"termless: all token strings of length <= {L} over {TERMLESS_TOKENS} mentioning the term-less variable e. states = texts, "
             "transitions = load attempts, traces = accepted texts re-exported/re-created/evaluated; non-trivial = text that "
             "is not a sentence of the reference grammar"
         ),
